@@ -79,7 +79,12 @@ def mk_chain(n, coin, rng, ntx_fn=lambda h: 1, real_genesis=True, segwit=False, 
                     # stored with non-minimal CompactSize encodings: a txid is the hash of the bytes as stored
                     t = txs[-1]
                     t[rng.choice(['w_in', 'w_out'])] = rng.choice([3, 5, 9])
-                    rng.choice([t['ins'][0], t['outs'][0]])['w'] = rng.choice([3, 5, 9])
+                    rng.choice([t['ins'][0]] + t['outs'][:1])['w'] = rng.choice([3, 5, 9])
+            if h % 2 == 1:
+                # transactions of exactly 64 stripped bytes (the size of an inner merkle node): one input and one output whose two
+                # scripts total 4 bytes, or one input with a 13-byte script and no output
+                txs.append({'ver': 1, 'ins': [{'txid': rng.randbytes(32), 'idx': 0, 'sig': b'\x01\x51', 'seq': 0}], 'outs': [{'val': 5, 'spk': b'\x51\x51'}], 'lock': 0})
+                txs.append({'ver': 1, 'ins': [{'txid': rng.randbytes(32), 'idx': 0, 'sig': b'\x0c' + rng.randbytes(12), 'seq': 0}], 'outs': [], 'lock': 0})
             if odd and h % 2 == 0 and len(txs) >= 2:
                 # the last transaction repeated / the whole list repeated: equal hashes as the last pair of a tree level (the shape
                 # behind CVE-2012-2459).  The merkle root of such a list is what it is; a block whose header holds it is consistent
@@ -209,7 +214,7 @@ def main(ck, tier, w):
             if r0.random() < 0.5:
                 t[r0.choice(['w_in', 'w_out'])] = r0.choice([3, 5, 9])
             else:
-                r0.choice([t['ins'][0], t['outs'][0]])['w'] = r0.choice([3, 5, 9])
+                r0.choice([t['ins'][0]] + t['outs'][:1])['w'] = r0.choice([3, 5, 9])
             stored = [b['raw'] for b in blocks]
             stored[h] = btc.ser_block(blocks[h]['hdr'], txs2)
             d3 = write_dir(w, blocks, coin, stored)
